@@ -448,6 +448,68 @@ pub fn run(run: &Run) {
         }
     }
     run.sample(|| "Gaussian design=covariate X(5x2)=[1,-1,1,0,1,1,1,1,1,-1] y=[-1,0,1,2,0] alpha=10 tol=1e-10, budgets 2,3,4,6,10,25: every Ok must satisfy X^T(y - X b) - 10*(0,b1) = 0".to_string());
+    // larger designs (the quantifier's n in 20..500, p in 1..6): pseudo-random standardised covariates,
+    // polynomial and indicator columns, responses generated deterministically from the model
+    let sizes: Vec<(usize, usize)> = if run.thorough() { vec![(20, 2), (20, 4), (50, 3), (50, 6), (200, 4), (200, 6), (500, 3), (500, 6), (127, 5), (129, 5)] } else { vec![(20, 3), (50, 6), (200, 4), (500, 6), (129, 5)] };
+    run.bound("large designs", format!("{:?} (rows, columns) × 6 families × weights × offsets × alpha {{0,1,10}}", sizes));
+    for &fam in &fams {
+        for &(n, p) in &sizes {
+            let mut st = 0x9E37_79B9_7F4A_7C15u64 ^ ((n * 131 + p) as u64);
+            let mut unif = || {
+                st = st.wrapping_mul(6364136223846793005).wrapping_add(1442695040888963407);
+                ((st >> 11) as f64) / (1u64 << 53) as f64
+            };
+            let mut x = vec![0.0; n * p];
+            for i in 0..n {
+                x[i * p] = 1.0;
+                for j in 1..p {
+                    x[i * p + j] = match j {
+                        1 => ((unif() * 48.0).floor() - 24.0) / 16.0,
+                        2 => if i % 3 == 0 { 1.0 } else { 0.0 },
+                        3 => {
+                            let v = x[i * p + 1];
+                            v * v - 0.75
+                        }
+                        _ => ((unif() * 48.0).floor() - 24.0) / 16.0,
+                    };
+                }
+            }
+            let beta_true: Vec<f64> = (0..p).map(|j| [0.3, -0.8, 0.5, 0.4, -0.6, 0.7][j]).collect();
+            let y: Vec<f64> = (0..n)
+                .map(|i| {
+                    let eta: f64 = (0..p).map(|j| x[i * p + j] * beta_true[j]).sum();
+                    let (m, _, _) = fam.mean(eta);
+                    let u = unif();
+                    match fam {
+                        Fam::Gaussian => m + (u - 0.5) * 2.0,
+                        Fam::Bernoulli => if u < m { 1.0 } else { 0.0 },
+                        Fam::Poisson | Fam::QuasiPoisson => (m + (u - 0.5) * 2.0 * m.sqrt()).round().max(0.0),
+                        Fam::Gamma | Fam::Exponential => m * (0.25 + 1.5 * u),
+                    }
+                })
+                .collect();
+            let wpat: Vec<f64> = (0..n).map(|i| [1.0, 2.0, 1.0, 3.0, 2.0, 1.0, 1.0, 2.0][i % 8]).collect();
+            let opat: Vec<f64> = (0..n).map(|i| [0.0, 0.25, -0.25, 0.5, 0.0, -0.5, 0.25, 0.0][i % 8]).collect();
+            for wopt in [None, Some(wpat.clone())] {
+                for oopt in [None, Some(opat.clone())] {
+                    for &alpha in &[0.0, 1.0, 10.0] {
+                        for &tol in &[1e-6, 1e-12] {
+                            let inst = Inst { fam, x: x.clone(), n, p, y: y.clone(), w: wopt.clone(), off: oopt.clone(), alpha, tol, design: "large" };
+                            let has_mle = inst.mle().is_some();
+                            if has_mle {
+                                run.nontrivial(1);
+                                run.regime("large-design-with-mle");
+                            }
+                            for k in [3usize, 8, 50] {
+                                judge(run, &inst, k, has_mle);
+                            }
+                        }
+                    }
+                }
+            }
+        }
+    }
+    run.require_regime("large-design-with-mle");
     // reordering observations: every permutation of the rows of base instances
     let pn = run.tier.pick(5usize, 6usize);
     for &fam in &fams {
@@ -487,5 +549,5 @@ pub fn run(run: &Run) {
     }
     run.assume("score equations 'to within the convergence tolerance': Newton decrement² sᵀ(I+αD)⁻¹s ≤ 10·tol·(1+deviance) at the returned coefficients, evaluated in double-double");
     run.assume("for weighted fits either the weighted or the unweighted family deviance is accepted; the dispersion is deviance/(Σw − p) for families with a dispersion parameter, 1 otherwise; standard errors use the unpenalised Fisher information at the returned coefficients (1e-3 relative)");
-    run.assume("designs with n in 20..500 rows and real-valued covariates are replaced by exhaustive responses on small lattice designs");
+    run.assume("besides the exhaustive small lattice designs, designs with 20..500 rows and up to 6 pseudo-random / polynomial / indicator columns are covered on deterministic model-generated responses only");
 }
